@@ -4,6 +4,7 @@ import (
 	"go/ast"
 	"go/token"
 	"go/types"
+	"golang.org/x/tools/go/packages"
 	"sort"
 	"strings"
 
@@ -388,7 +389,7 @@ func c06bounded(c *core.Ctx, R string, d *core.DeclSite) {
 	}
 	bad := ""
 	n := 0
-	ast.Inspect(d.Decl.Body, func(nd ast.Node) bool {
+	inspectDeep(c, d, 1, func(hd *core.DeclSite, nd ast.Node) bool {
 		be, ok := nd.(*ast.BinaryExpr)
 		if !ok {
 			return true
@@ -401,7 +402,7 @@ func c06bounded(c *core.Ctx, R string, d *core.DeclSite) {
 		for _, pair := range [][2]ast.Expr{{be.X, be.Y}, {be.Y, be.X}} {
 			if isCnt(pair[0]) {
 				n++
-				if core.ConstOf(d.Pkg, pair[1]) == nil {
+				if core.ConstOf(hd.Pkg, pair[1]) == nil {
 					bad = core.ExprStr(be)
 				}
 			}
@@ -437,9 +438,70 @@ func c06alt(c *core.Ctx) {
 		if !strings.Contains(s, "processedTypes[") {
 			return true
 		}
+		// a loop over (a re-slice of) the alternatives - here, or in a helper of the package that is
+		// handed the alternatives and consults the same counters
+		isAltLoop := func(pk *packages.Package, m ast.Node, names map[string]bool) bool {
+			switch l := m.(type) {
+			case *ast.RangeStmt:
+				x := ast.Unparen(l.X)
+				if se, isS := x.(*ast.SliceExpr); isS {
+					x = se.X
+				}
+				return names[core.ExprStr(x)]
+			case *ast.ForStmt:
+				found := false
+				if l.Cond != nil {
+					ast.Inspect(l.Cond, func(k ast.Node) bool {
+						if call, isC := k.(*ast.CallExpr); isC && core.ExprStr(call.Fun) == "len" && len(call.Args) == 1 && names[core.ExprStr(call.Args[0])] {
+							found = true
+						}
+						return true
+					})
+				}
+				return found
+			}
+			return false
+		}
+		// the variable(s) holding node.GetTypes()
+		alts := map[string]bool{}
+		ast.Inspect(d.Decl.Body, func(m ast.Node) bool {
+			if as, isA := m.(*ast.AssignStmt); isA && len(as.Lhs) == 1 && len(as.Rhs) == 1 && strings.HasSuffix(core.ExprStr(as.Rhs[0]), ".GetTypes()") {
+				alts[core.ExprStr(as.Lhs[0])] = true
+			}
+			return true
+		})
 		ast.Inspect(ifs.Body, func(m ast.Node) bool {
-			if rs, isR := m.(*ast.RangeStmt); isR && strings.HasPrefix(core.ExprStr(rs.X), "tt") {
+			if isAltLoop(d.Pkg, m, alts) {
 				ok = true
+			}
+			if call, isC := m.(*ast.CallExpr); isC {
+				// a helper that receives (a re-slice of) the alternatives and loops over its parameter
+				if f, isF := core.Callee(d.Pkg, call).(*types.Func); isF && f.Pkg() != nil && f.Pkg().Path() == d.Pkg.PkgPath {
+					passes := false
+					for _, a := range call.Args {
+						x := ast.Unparen(a)
+						if se, isS := x.(*ast.SliceExpr); isS {
+							x = se.X
+						}
+						if alts[core.ExprStr(x)] {
+							passes = true
+						}
+					}
+					if hd := c.P.FindDecl(core.Rel(f.FullName())); passes && hd != nil && hd.Decl.Body != nil {
+						params := map[string]bool{}
+						for _, fl := range hd.Decl.Type.Params.List {
+							for _, nm := range fl.Names {
+								params[nm.Name] = true
+							}
+						}
+						ast.Inspect(hd.Decl.Body, func(k ast.Node) bool {
+							if isAltLoop(hd.Pkg, k, params) {
+								ok = true
+							}
+							return true
+						})
+					}
+				}
 			}
 			return true
 		})
